@@ -1191,6 +1191,71 @@ assert_eq!(
     }
 }
 
+/// Snapshot of every field of a [`Sentence`], for external verification harnesses.
+#[cfg(feature = "verif-hooks")]
+#[derive(Clone, Debug, PartialEq, Eq, Hash)]
+pub struct VerifSentenceState {
+    /// Raw text.
+    pub text: String,
+    /// Character types.
+    pub char_types: Vec<u8>,
+    /// Boundaries as `u8`.
+    pub boundaries: Vec<u8>,
+    /// The padded score buffer.
+    pub boundary_scores: Vec<i32>,
+    /// Padding of the score buffer.
+    pub score_padding: usize,
+    /// Automaton states recorded by the character scorer.
+    pub char_pma_states: Vec<u32>,
+    /// Automaton states recorded by the type scorer.
+    pub type_pma_states: Vec<u32>,
+    /// Tags.
+    pub tags: Vec<Option<String>>,
+    /// Stored tag scores: per character, the score vector and the address of the candidate table.
+    pub tag_scores: Vec<Option<(usize, Vec<i32>)>>,
+    /// Number of tags per character.
+    pub n_tags: usize,
+    /// Address of the linked predictor.
+    pub predictor: Option<usize>,
+    /// Byte position to character position map.
+    pub str_to_char_pos: Vec<usize>,
+    /// Character position to byte position map.
+    pub char_to_str_pos: Vec<usize>,
+}
+
+#[cfg(feature = "verif-hooks")]
+impl Sentence<'_, '_> {
+    /// Returns a snapshot of every field (read-only).
+    pub fn verif_state(&self) -> VerifSentenceState {
+        VerifSentenceState {
+            text: String::from(self.text.as_ref()),
+            char_types: self.char_types.clone(),
+            boundaries: self.boundaries.iter().map(|&b| b as u8).collect(),
+            boundary_scores: self.boundary_scores.clone(),
+            score_padding: self.score_padding,
+            char_pma_states: self.char_pma_states.clone(),
+            type_pma_states: self.type_pma_states.clone(),
+            tags: self
+                .tags
+                .iter()
+                .map(|t| t.as_ref().map(|t| String::from(t.as_ref())))
+                .collect(),
+            #[cfg(feature = "tag-prediction")]
+            tag_scores: self
+                .tag_scores
+                .iter()
+                .map(|t| t.as_ref().map(|(c, s)| (c.as_ptr() as usize, s.clone())))
+                .collect(),
+            #[cfg(not(feature = "tag-prediction"))]
+            tag_scores: vec![],
+            n_tags: self.n_tags,
+            predictor: self.predictor.map(|p| p as *const Predictor as usize),
+            str_to_char_pos: self.str_to_char_pos.clone(),
+            char_to_str_pos: self.char_to_str_pos.clone(),
+        }
+    }
+}
+
 /// A Token information.
 #[derive(Clone, Copy)]
 pub struct Token<'a, 'b> {
